@@ -1,6 +1,12 @@
 /-
   C06 — File reader emits each complete line once with its end-of-line offset.
   Property theorems only (helper lemmas: FileD/Lemmas/Worker.lean).
+
+  Everything below is about `Worker.turns` / `Worker.turn` (Model/Worker.lean, the model of
+  `(*worker).work` that the driver executes against the real worker on every run) and holds for
+  arbitrary byte contents, arbitrary splits of the content into turns (appends) and of every turn
+  into reads (any sizes, empty reads included), arbitrary base offsets. No size bound anywhere.
+  `content` is always `ts.flatten.flatten`: the bytes the turns read, in order.
 -/
 import FileD.Lemmas.Worker
 namespace FileD.PropsC06
@@ -8,64 +14,155 @@ open FileD FileD.Worker FileD.SpecC06
 
 def unlimited : Cfg := ⟨0, false⟩
 
-theorem over_unlimited (a b : Nat) : over unlimited a b = false := by simp [over, unlimited]
+/-- **C06, the oracle itself**: for every configuration (no limit / skip / cut), every start mode
+    (`skip` = job.shouldSkip), every base offset, every content and every split of it into turns and
+    reads, the calls made by the worker model satisfy `SpecC06.holds` — literally the predicate
+    `./check C06` evaluates on the calls of the real worker. -/
+theorem worker_holds (cfg : Cfg) (skip : Bool) (base : Nat) (ts : List (List Bytes)) :
+    holds cfg skip base ts.flatten.flatten (turns cfg ⟨base, [], skip⟩ ts).2 = true := by
+  rw [holds_iff]
+  exact (turns_post cfg ⟨base, [], skip⟩ ts [] (Carry.refl cfg [])).out
 
-/-- invariant of the parsing loop with no size limit -/
-theorem parseLoop_unlimited (base : Nat) (buf : Bytes) (w : W) (hs : w.skip = false) (more : Bytes) :
-    (parseLoop unlimited base buf w).1.skip = false ∧
-    (parseLoop unlimited base buf w).1.out ++
-        specLines more (base + (parseLoop unlimited base buf w).1.scanned)
-          ((parseLoop unlimited base buf w).1.accum ++ (parseLoop unlimited base buf w).2)
-      = w.out ++ specLines (buf ++ more) (base + w.scanned) w.accum := by
-  induction h : buf.length using Nat.strongRecOn generalizing buf w with
-  | _ n ih =>
-    unfold parseLoop
-    split
-    · rename_i hc
-      simp [hs, specLines_nocut hc, Nat.add_assoc]
-    · rename_i line rest hc
-      have hl := cutLine_length hc
-      have := ih rest.length (by omega) rest
-        { accum := [], scanned := w.scanned + line.length, skip := false,
-          out := w.out ++ [(base + (w.scanned + line.length), w.accum ++ line)] } rfl rfl
-      simp only [hs, over_unlimited, Bool.false_or, Bool.false_eq_true, ↓reduceIte]
-      refine ⟨this.1, ?_⟩
-      rw [this.2, specLines_cut (cut_append hc more)]
-      simp [Nat.add_assoc]
+-- non-vacuity: skip mode, limit 3, two turns, the 5-byte line straddles three reads and is dropped
+example : (turns ⟨3, false⟩ ⟨10, [], false⟩ [[[97, 98], [99, 100]], [[10, 101], [10]]]).2 = [(17, [101, 10])] := by
+  simp [turns, turn, procReads, procRead, parseLoop, cutLine, afterRead, over, NL]
+example : holds ⟨3, false⟩ false 10 [97, 98, 99, 100, 10, 101, 10] [(17, [101, 10])] = true := by decide
+example : holds ⟨3, false⟩ false 10 [97, 98, 99, 100, 10, 101, 10] [(15, [97, 98, 99, 100, 10]), (17, [101, 10])] = false := by decide
 
-/-- invariant of one read with no size limit: emitted so far ++ spec of the rest is constant -/
-theorem procRead_unlimited (base : Nat) (buf : Bytes) (w : W) (hs : w.skip = false) (more : Bytes) :
-    (procRead unlimited base w buf).skip = false ∧
-    (procRead unlimited base w buf).out ++
-        specLines more (base + (procRead unlimited base w buf).scanned) (procRead unlimited base w buf).accum
-      = w.out ++ specLines (buf ++ more) (base + w.scanned) w.accum := by
-  have := parseLoop_unlimited base buf w hs more
-  simpa [procRead, afterRead, unlimited] using this
-
-theorem procReads_unlimited (base : Nat) (cs : List Bytes) (w : W) (hs : w.skip = false) (more : Bytes) :
-    (procReads unlimited base cs w).skip = false ∧
-    (procReads unlimited base cs w).out ++
-        specLines more (base + (procReads unlimited base cs w).scanned) (procReads unlimited base cs w).accum
-      = w.out ++ specLines (cs.flatten ++ more) (base + w.scanned) w.accum := by
-  induction cs generalizing w with
-  | nil => simp [procReads, hs]
-  | cons c cs ih =>
-    simp only [procReads, List.flatten_cons, List.append_assoc]
-    have h1 := procRead_unlimited base c w hs (cs.flatten ++ more)
-    have h2 := ih (procRead unlimited base w c) h1.1
-    exact ⟨h2.1, by rw [h2.2, h1.2]⟩
-
-/-- **C06 core, one turn**: for every content and every way the OS splits it into reads
-    (any chunk sizes, including empty reads), the `In` calls of a turn that starts on a line
-    boundary are exactly the complete lines of what was read, each once, in order, with the
-    offset just after its newline. No bound on sizes or on the number of reads. -/
+/-- **one turn, no limit**: the `In` calls of a turn that starts on a line boundary are exactly the
+    complete lines of what was read, each once, in order, with the offset just after its newline. -/
 theorem worker_lines (base : Nat) (reads : List Bytes) :
     (turn unlimited ⟨base, [], false⟩ reads).2 = specLines reads.flatten base [] := by
-  have := (procReads_unlimited base reads ⟨[], 0, false, []⟩ rfl []).2
-  simpa [turn, specLines] using this
+  have := (turn_post unlimited ⟨base, [], false⟩ reads [] (Carry.refl _ [])).out
+  simpa [Match, unlimited, dropFirst] using this
 
 example : (turn unlimited ⟨0, [], false⟩ [[97, 10, 98], [99, 10, 100]]).2
     = [(2, [97, 10]), (5, [98, 99, 10])] := by
   rw [worker_lines]; decide
+
+/-- **any number of turns, no limit**: over a whole file life (appends between turns, reads of any
+    size inside a turn) the calls are exactly `specLines` of everything read: a line split across
+    reads or across turns is emitted once, when its newline arrives, with its end offset. -/
+theorem worker_turns_lines (base : Nat) (ts : List (List Bytes)) :
+    (turns unlimited ⟨base, [], false⟩ ts).2 = specLines ts.flatten.flatten base [] := by
+  have := (turns_post unlimited ⟨base, [], false⟩ ts [] (Carry.refl _ [])).out
+  simpa [Match, unlimited, dropFirst] using this
+
+example : (turns unlimited ⟨7, [], false⟩ [[[97], [98]], [[99, 10, 10]], [], [[100], [10, 101]]]).2
+    = [(11, [97, 98, 99, 10]), (12, [10]), (14, [100, 10])] := by
+  rw [worker_turns_lines]; decide
+
+/-- **tail and offset**: after any turns `curOffset` has advanced by exactly the bytes read (every
+    configuration), and the unterminated remainder is held back in `job.tail` — exactly
+    `specTail content` with no limit, and with a limit whenever that remainder fits it. -/
+theorem worker_tail (cfg : Cfg) (skip : Bool) (base : Nat) (ts : List (List Bytes)) :
+    (turns cfg ⟨base, [], skip⟩ ts).1.curOffset = base + ts.flatten.flatten.length ∧
+    (cfg.maxSize = 0 ∨ (specTail ts.flatten.flatten []).length ≤ cfg.maxSize →
+      (turns cfg ⟨base, [], skip⟩ ts).1.tail = specTail ts.flatten.flatten []) := by
+  obtain ⟨h1, h2, _, _⟩ := turns_post cfg ⟨base, [], skip⟩ ts [] (Carry.refl cfg [])
+  exact ⟨h1, fun h => Carry.eq_of_fits h2 h⟩
+
+example : (turns unlimited ⟨3, [], false⟩ [[[97, 10, 98]], [[99]]]).1.tail = [98, 99] ∧
+    (turns unlimited ⟨3, [], false⟩ [[[97, 10, 98]], [[99]]]).1.curOffset = 7 := by
+  have h := worker_tail unlimited false 3 [[[97, 10, 98]], [[99]]]
+  exact ⟨by rw [h.2 (Or.inl rfl)]; decide, by rw [h.1]; decide⟩
+
+/-- **resume**: a reader started at a line-boundary offset `base + pre.length` of a file whose
+    bytes before that offset are `pre` emits exactly the lines of the whole file that come after the
+    lines of `pre`, with the offsets they have in the whole file. -/
+theorem worker_resume (base : Nat) (pre : Bytes) (ts : List (List Bytes))
+    (hpre : pre = [] ∨ pre.getLast? = some NL) :
+    specLines (pre ++ ts.flatten.flatten) base []
+      = specLines pre base [] ++ (turns unlimited ⟨base + pre.length, [], false⟩ ts).2 := by
+  rw [worker_turns_lines, specLines_append, specTail_boundary hpre]
+
+example : (turns unlimited ⟨0 + [97, 10, 98, 10].length, [], false⟩ [[[99], [10, 100]]]).2 = [(6, [99, 10])] := by
+  have h := worker_resume 0 [97, 10, 98, 10] [[[99], [10, 100]]] (Or.inr (by decide))
+  have e1 : specLines ([97, 10, 98, 10] ++ [[[99], [10, 100]]].flatten.flatten) 0 []
+      = [(2, [97, 10]), (4, [98, 10]), (6, [99, 10])] := by decide
+  have e2 : specLines [97, 10, 98, 10] 0 [] = [(2, [97, 10]), (4, [98, 10])] := by decide
+  rw [e1, e2] at h
+  simpa using h.symm
+
+/-- **first line skipped**: a job opened with `shouldSkip` (file opened in the middle of a line)
+    drops exactly the first line — whenever and in however many pieces it completes — and nothing else;
+    `shouldSkip` is cleared exactly when a line has completed. -/
+theorem worker_first_line_skipped (base : Nat) (ts : List (List Bytes)) :
+    (turns unlimited ⟨base, [], true⟩ ts).2 = (specLines ts.flatten.flatten base []).drop 1 ∧
+    (turns unlimited ⟨base, [], true⟩ ts).1.skip = (specLines ts.flatten.flatten base []).isEmpty := by
+  obtain ⟨_, _, h3, h4⟩ := turns_post unlimited ⟨base, [], true⟩ ts [] (Carry.refl _ [])
+  exact ⟨by simpa [Match, unlimited, dropFirst] using h4, by simpa using h3⟩
+
+example : (turns unlimited ⟨0, [], true⟩ [[[97]], [[98, 10, 99, 10]], [[100, 10]]]).2
+    = [(5, [99, 10]), (7, [100, 10])] := by
+  rw [(worker_first_line_skipped 0 _).1]; decide
+
+/-- **skip mode** (`max_event_size = max > 0`, cut-off disabled): the calls are exactly the spec
+    lines whose length, newline included, is at most `max`; being a filter of `specLines`, every
+    surviving line keeps its bytes and its offset, whatever was dropped before it. -/
+theorem worker_skip_oversize (max : Nat) (hmax : 0 < max) (base : Nat) (ts : List (List Bytes)) :
+    (turns ⟨max, false⟩ ⟨base, [], false⟩ ts).2
+      = (specLines ts.flatten.flatten base []).filter (fun x => decide (x.2.length ≤ max)) := by
+  have := (turns_post ⟨max, false⟩ ⟨base, [], false⟩ ts [] (Carry.refl _ [])).out
+  have hm : ¬ max = 0 := by omega
+  have hf : fits max = fun x => decide (x.2.length ≤ max) := by
+    funext x; have : (max == 0) = false := by simpa using hm
+    simp [fits, this]
+  simpa [Match, hm, dropFirst, hf] using this
+
+example : (turns ⟨3, false⟩ ⟨0, [], false⟩ [[[97, 10, 98, 98], [98, 98]], [[10, 99, 99, 10]]]).2
+    = [(2, [97, 10]), (10, [99, 99, 10])] := by
+  rw [worker_skip_oversize 3 (by decide)]; decide
+
+/-- **cut mode** (`max_event_size = max > 0`, cut-off enabled): as many calls as spec lines, call
+    `i` carries the offset of spec line `i`; a line that fits is handed over unchanged; for a line
+    over the limit the data is longer than `max`, starts with the line's first `max` bytes and ends
+    in the newline (`Pipeline.checkInputBytes` then cuts it at `max`). -/
+theorem worker_cut_oversize (max : Nat) (hmax : 0 < max) (base : Nat) (ts : List (List Bytes)) :
+    let calls := (turns ⟨max, true⟩ ⟨base, [], false⟩ ts).2
+    let want := specLines ts.flatten.flatten base []
+    calls.length = want.length ∧
+    ∀ (i : Nat) (h1 : i < calls.length) (h2 : i < want.length),
+      calls[i].1 = want[i].1 ∧
+      (want[i].2.length ≤ max → calls[i].2 = want[i].2) ∧
+      (max < want[i].2.length →
+        max < calls[i].2.length ∧ calls[i].2.take max = want[i].2.take max ∧ calls[i].2.getLast? = some NL) := by
+  have := (turns_post ⟨max, true⟩ ⟨base, [], false⟩ ts [] (Carry.refl _ [])).out
+  have hm : ¬ max = 0 := by omega
+  simp only [Match, hm, ↓reduceIte, dropFirst, Bool.false_eq_true] at this
+  obtain ⟨hl, hi⟩ := allCut_iff.mp this
+  exact ⟨hl, fun i h1 h2 => cutOk_iff.mp (hi i h1 h2)⟩
+
+-- non-vacuity: limit 2, the line "abcdefg\n" arrives in four reads; what is handed over is not the
+-- line (the middle is dropped) but satisfies the cut contract; the next line is untouched
+example : (turns ⟨2, true⟩ ⟨0, [], false⟩ [[[97, 98], [99, 100], [101, 102]], [[103, 10, 120], [10]]]).2
+    = [(8, [97, 98, 101, 102, 103, 10]), (10, [120, 10])] := by
+  simp [turns, turn, procReads, procRead, parseLoop, cutLine, afterRead, over, NL]
+example : specLines [97, 98, 99, 100, 101, 102, 103, 10, 120, 10] 0 []
+    = [(8, [97, 98, 99, 100, 101, 102, 103, 10]), (10, [120, 10])] := by decide
+
+/-- **cut mode, after admission**: once `Pipeline.checkInputBytes` has cut the data at `max`
+    (`cutAtLimit`, the model of its cut branch — tied to the code by C20, not here), event `i` is
+    exactly what cutting the true line gives: the line when it fits, its first `max` bytes plus the
+    newline otherwise. What the worker dropped from the middle of an over-long line is never seen. -/
+theorem worker_cut_then_admission (max : Nat) (hmax : 0 < max) (base : Nat) (ts : List (List Bytes))
+    (i : Nat) (h1 : i < (turns ⟨max, true⟩ ⟨base, [], false⟩ ts).2.length)
+    (h2 : i < (specLines ts.flatten.flatten base []).length) :
+    cutAtLimit max ((turns ⟨max, true⟩ ⟨base, [], false⟩ ts).2[i]).2
+      = cutAtLimit max ((specLines ts.flatten.flatten base [])[i]).2 ∧
+    (max < ((specLines ts.flatten.flatten base [])[i]).2.length →
+      cutAtLimit max ((turns ⟨max, true⟩ ⟨base, [], false⟩ ts).2[i]).2
+        = ((specLines ts.flatten.flatten base [])[i]).2.take max ++ [NL]) := by
+  have := (turns_post ⟨max, true⟩ ⟨base, [], false⟩ ts [] (Carry.refl _ [])).out
+  have hm : ¬ max = 0 := by omega
+  simp only [Match, hm, ↓reduceIte, dropFirst, Bool.false_eq_true] at this
+  have hk := (allCut_iff.mp this).2 i h1 h2
+  have hnl := specLines_getLast (List.getElem_mem h2)
+  have he := cutAtLimit_of_cutOk hk hnl
+  refine ⟨he, fun hlen => ?_⟩
+  rw [he]; simp [cutAtLimit, hlen, hnl]
+
+example : cutAtLimit 2 [97, 98, 101, 102, 103, 10] = [97, 98, 10] ∧
+    cutAtLimit 2 [97, 98, 99, 100, 101, 102, 103, 10] = [97, 98, 10] := by decide
 
 end FileD.PropsC06
